@@ -49,6 +49,8 @@ SEC_WORDS = [("Sec", "Secs"), ("Sec.", "Secs."), ("Section", "Sections"), ("Sect
 def render_sec(nums, conns, colon, rng, plain=False):
     sing, plur = SEC_WORDS[0] if plain else rng.choice(SEC_WORDS)
     word = plur if len(nums) > 1 and rng.random() < 0.7 else sing
+    if word == "§" and len(nums) == 1 and nums[0] < 10:
+        word = "Sec"          # a section reference is always at least 4 characters long (reporting threshold)
     out = "%s %d" % (word, nums[0])
     for j in range(1, len(nums)):
         c = (THRU if conns[j - 1] == "THRU" else AND)[0] if plain else rng.choice(THRU if conns[j - 1] == "THRU" else AND)
